@@ -642,6 +642,28 @@ def cmd_omptest(n=60):
             if not ok:
                 bad += 1
                 print('OMP-SELFTEST-FAILED plan %d (%s): %s %s %s' % (i, variant, r.crash_class(), [(r.op(k).f if r.op(k) else None) for k in ix], r.viol[:2]))
+        # store-buffer model for atomics (preempt build): the Dekker litmus test must never read 0/0 under sequential
+        # consistency and must do so at least once when relaxed stores may sit in a store buffer
+        seen = {0: 0, 1: 0}
+        for mode in (0, 1):
+            for i in range(40):
+                rng = random.Random(gen.derive_seed(seed, 'litmus%d' % mode, i))
+                w = gen.gen_world(rng, preempt=True)
+                w['p_sb'] = 65535 if mode else 0
+                p = plans.base_plan('litmus%d_%d' % (mode, i), w, trace=False)
+                p.stdin = ('tty', b'')
+                ix = [p.op_simple('T2', rng.choice([2, 3, 4, 8])) for _ in range(6)]
+                r = ws.run('preempt', p, timeout=120)
+                if r.crashed():
+                    bad += 1
+                    print('OMP-SELFTEST-FAILED litmus plan %d: %s' % (i, r.crash_class()))
+                    continue
+                seen[mode] += sum(1 for k in ix if r.op(k) is not None and r.op(k).rc == 1)
+        if seen[0] != 0 or seen[1] == 0:
+            bad += 1
+            print('OMP-SELFTEST-FAILED store-buffer litmus: 0/0 outcomes under SC: %d (must be 0), with store buffers: %d (must be > 0)' % (seen[0], seen[1]))
+        else:
+            print('omptest: store-buffer litmus: 0/0 read %d times with store buffers on, never under SC' % seen[1])
     finally:
         ws.close()
         shutil.rmtree(sim.RUN_DIR, ignore_errors=True)
